@@ -12,7 +12,8 @@ open Complex
 noncomputable def opsC : NumOps ℂ :=
   { ofNat := fun n => (n : ℂ), I := Complex.I, pi := (Real.pi : ℂ), add := (· + ·), mul := (· * ·), neg := (- ·),
     inv := (·⁻¹), pow := (· ^ ·), sqrt := fun z => z ^ ((1 : ℂ) / 2), tanh := Complex.tanh, cosh := Complex.cosh,
-    sinh := Complex.sinh, re := fun z => ((z.re : ℝ) : ℂ), im := fun z => ((z.im : ℝ) : ℂ), abs := fun z => ((‖z‖ : ℝ) : ℂ) }
+    sinh := Complex.sinh, re := fun z => ((z.re : ℝ) : ℂ), im := fun z => ((z.im : ℝ) : ℂ), abs := fun z => ((‖z‖ : ℝ) : ℂ),
+    exp := Complex.exp, log := Complex.log, sin := Complex.sin, cos := Complex.cos }
 
 noncomputable def evalC (env : String → ℂ) (e : E) : ℂ := e.eval opsC env
 
